@@ -834,6 +834,11 @@ def h_extend(I, st, fr, e, c, a):
     return [(st, UNIT, None)]
 
 
+def h_capacity_noop(I, st, fr, e, c, a):
+    """reserve / shrink_to_fit: capacity only, the contents are untouched."""
+    return [(st, UNIT, None)]
+
+
 def h_append(I, st, fr, e, c, a):
     """a.append(&mut b): a becomes a ++ b, b becomes empty."""
     place, cur = place_of(I, st, a[0])
@@ -911,9 +916,22 @@ def h_mem_swap(I, st, fr, e, c, a):
 
 
 def h_drain(I, st, fr, e, c, a):
+    """v.drain(range): yields v[range] and leaves the elements before and after it."""
     place, cur = place_of(I, st, a[0])
-    I.write_place(st, place, VSeq(EMPTY))
-    return [(st, cur, None)]
+    if not isinstance(cur, VSeq):
+        raise NotImplementedError("drain on " + type(cur).__name__)
+    import prims
+    n = t_len(cur.t)
+    lo, hi = prims._range(I, st, cur.t, deref(I, st, a[1]))
+    if not lo.t and st.eq(hi, n):
+        I.write_place(st, place, VSeq(EMPTY))
+        return [(st, cur, None)]
+    I.pre_ge(st, fr, e, "drain", hi, lo, f"{show_poly(lo)} <= {show_poly(hi)}")
+    I.pre_ge(st, fr, e, "drain", n, hi, f"{show_poly(hi)} <= len({show_term(cur.t)})")
+    taken = prims.mk_slice(st, cur.t, lo, hi)
+    rest = mk_concat([prims.mk_slice(st, cur.t, Poly.const(0), lo), prims.mk_slice(st, cur.t, hi, n)])
+    I.write_place(st, place, VSeq(rest))
+    return [(st, VSeq(taken), None)]
 
 
 def h_for_each(I, st, fr, e, c, a):
@@ -1396,6 +1414,10 @@ TABLE = {
     "std::mem::swap": h_mem_swap,
     "std::vec::Vec::<T, A>::clear": h_clear,
     "std::vec::Vec::<T, A>::append": h_append,
+    "std::vec::Vec::<T, A>::reserve": h_capacity_noop,
+    "std::vec::Vec::<T, A>::reserve_exact": h_capacity_noop,
+    "std::vec::Vec::<T, A>::shrink_to_fit": h_capacity_noop,
+    "std::vec::Vec::<T, A>::shrink_to": h_capacity_noop,
     "core::slice::<impl [T]>::clone_from_slice": h_clone_from_slice2,
     "core::slice::<impl [T]>::copy_from_slice": h_clone_from_slice2,
     "core::slice::<impl [T]>::last": h_last,
